@@ -276,6 +276,28 @@ def run_case(case):
     import esutil.stat as st
     import esutil.stat.util as su
     data, kw, dt = make(case)
+    # one case in four presents float64 data as a non-contiguous view (strided, negative stride, record field, column of
+    # a 2-d array): the engines must honour the strides
+    lr = np.random.default_rng([case["sub"], 5])
+    if isinstance(data, np.ndarray) and data.dtype == np.float64 and data.ndim == 1 and lr.random() < .5:
+        k = int(lr.integers(0, 4))
+        vals = data.copy()
+        if k == 0:
+            big = np.full(vals.size * 2, -777.25)
+            big[::2] = vals
+            data = big[::2]
+        elif k == 1:
+            data = np.ascontiguousarray(vals[::-1])[::-1]
+        elif k == 2:
+            rec = np.zeros(vals.size, dtype=[("id", "i4"), ("x", "f8"), ("w", "f4")])
+            rec["x"] = vals
+            rec["id"] = 12345
+            data = rec["x"]
+        else:
+            m2 = np.full((vals.size, 3), 9.75)
+            m2[:, 1] = vals
+            data = m2[:, 1]
+        dt = dt + "/" + ["strided", "negstride", "recfield", "2dcol"][k]
     COL.sample({"family": case["family"], "dtype": dt, "kw": kw,
                 "data_head": (data[:8] if isinstance(data, list) else data[:8].tolist()), "n": len(data)})
     res = {}
